@@ -15,8 +15,9 @@ Strings (model names, asset ids, timestamps) are opaque keys compared only for e
 cache; the model uses `Nat` keys, the harness maps key `k` to the decimal string of `k` (injective).
 The asset payload (`shared_ptr<const void>`) is a `Nat` tag.
 
-`size_t` arithmetic on byte counts wraps modulo 2^64 (`wadd`, `wsub`): the byte count of one
-`Insert` is caller-supplied, so wrap-around is reachable in one call and is modelled.  The two
+`size_t` arithmetic on byte counts wraps modulo 2^64 (`wadd`, `wsub`, exact for operands < 2^64):
+the byte count of one `Insert` is caller-supplied, so wrap-around is reachable in one call and is
+modelled.  The two
 counters `insert_num_` / `access_count_` are only ever incremented by one; they are modelled as
 unbounded naturals (2^64 increments are out of reach).
 
@@ -134,8 +135,9 @@ def trimN : Nat → Cache → Cache
       | some a => trimN fuel (deleteCore c a none)
     else c
 
-/-- every iteration removes at least one element of `assets`, so `assets.length` iterations suffice
-    (`trimN_fuel` in the lemma file shows that more fuel does not change the result). -/
+/-- every iteration removes at least one element of `assets`, so `assets.length` iterations suffice:
+    `trimN_inv` (lemma file) shows that from a well-formed state the loop ends with `size ≤ capacity`
+    before the fuel is used up (the `ub` flag stays clear). -/
 def trim (c : Cache) : Cache := trimN c.assets.length c
 
 /-! ### public methods -/
